@@ -25,8 +25,10 @@ Proof.
 Qed.
 
 (* the running adjustment map of the forward scan *)
+(* (the forward scan keeps the cumulative pre-to-post factor and divides by it:
+   its inverse is the adjustment of the rule) *)
 Definition adj_inv (adj : list (N * Qc)) (seen : list tx) : Prop :=
-  forall af, adj_of af adj = fadj (af_id af) seen.
+  forall af, / adj_of af adj = fadj (af_id af) seen.
 Definition adj_inv_b (adj : list (N * Qc)) (seen : list tx) : Prop :=
   forall af, adj_of af adj = badj (af_id af) seen.
 
@@ -45,14 +47,14 @@ Qed.
 Lemma adj_inv_step adj seen x v :
   adj_inv adj seen ->
   is_split (t_act x) = true ->
-  v = adj_of (t_af x) adj / split_factor_of x ->
+  v = adj_of (t_af x) adj * split_factor_of x ->
   adj_inv (aupdate (af_id (t_af x)) v adj) (seen ++ [x]).
 Proof.
   intros Hinv Hs Hv af. unfold adj_of. rewrite alookup_aupdate, fadj_snoc.
   unfold split_of. rewrite Hs. cbn [andb].
   rewrite (N.eqb_sym (af_id (t_af x))).
   destruct (N.eqb (af_id af) (af_id (t_af x))) eqn:E.
-  - apply N.eqb_eq in E. rewrite Hv. unfold adj_of. rewrite <- E.
+  - apply N.eqb_eq in E. rewrite Hv, Qcinv_mult_distr. unfold adj_of. rewrite <- E.
     specialize (Hinv af). unfold adj_of in Hinv. rewrite Hinv. reflexivity.
   - specialize (Hinv af). unfold adj_of in Hinv. rewrite Hinv. ring.
 Qed.
@@ -103,16 +105,16 @@ Proof.
     unfold buy_shares, sell_shares.
     destruct (t_act x) as [sh aps com rate crate | sh aps com rate crate sp | aps rate
                           | sh aps | post pre io] eqn:Ea.
-    + bind_as H as b E1. apply gez_mul_exact in E1 as [-> _].
+    + bind_as H as b E1. apply gez_div_exact in E1 as [-> _].
       bind_as H as eop E2. apply gez_add_exact in E2 as [-> _].
       bind_as H as na E3. bind_as H as acq E4. apply gez_add_exact in E4 as [-> _].
       apply (IH _ _ (seen ++ [x])) in H; [|assumption|apply adj_inv_keep; [assumption|rewrite Ea; reflexivity]].
-      destruct H as [H1 H2]. cbn [sc_eop sc_acq] in H1, H2. rewrite H1, H2, (Hinv (t_af x)).
+      destruct H as [H1 H2]. cbn [sc_eop sc_acq] in H1, H2. rewrite H1, H2. unfold Qcdiv. rewrite (Hinv (t_af x)).
       split; ring.
-    + bind_as H as b E1. apply gez_mul_exact in E1 as [-> _].
+    + bind_as H as b E1. apply gez_div_exact in E1 as [-> _].
       cbn [a_sub exact bind] in H. if_inv H. if_inv H.
       apply (IH _ _ (seen ++ [x])) in H; [|assumption|apply adj_inv_keep; [assumption|rewrite Ea; reflexivity]].
-      destruct H as [H1 H2]. cbn [sc_eop sc_acq] in H1, H2. rewrite H1, H2, (Hinv (t_af x)).
+      destruct H as [H1 H2]. cbn [sc_eop sc_acq] in H1, H2. rewrite H1, H2. unfold Qcdiv. rewrite (Hinv (t_af x)).
       split; ring.
     + apply (IH _ _ (seen ++ [x])) in H; [|assumption|apply adj_inv_keep; [assumption|rewrite Ea; reflexivity]].
       destruct H as [H1 H2]. rewrite H1, H2. split; ring.
@@ -120,7 +122,7 @@ Proof.
       destruct H as [H1 H2]. rewrite H1, H2. split; ring.
     + unfold split_factor in H.
       bind_as H as f E1. apply pos_div_exact in E1 as (-> & _ & _).
-      bind_as H as nsa E2. apply pos_div_exact in E2 as (-> & _ & _).
+      bind_as H as nsa E2. apply pos_mul_exact in E2 as [-> _].
       apply (IH _ _ (seen ++ [x])) in H; [|assumption|].
       * destruct H as [H1 H2]. rewrite H1, H2. split; ring.
       * apply adj_inv_step; [assumption|rewrite Ea; reflexivity|].
